@@ -23,7 +23,7 @@ RULE = (
     "Partitions node left (the selection was pushed into the plan); distinct by (source, chain, selection)"
 )
 ASSUMPTIONS = ["head()'s documented 'Insufficient elements' warning is allowed; the returned rows must still be the first rows of the selected partitions", "timeseries uses a fixed seed"]
-BUDGET_S = {"quick": 175, "thorough": 3000}
+BUDGET_S = {"quick": 175, "thorough": 900}
 
 N = 14
 
